@@ -21,7 +21,9 @@ func init() { checks["C07"] = checkC07 }
 var c07Templates = []string{`foo.*?bar`, `\d+`, `[a-z]+[0-9]+`, `(foo|bar|baz)qux`, `^(\d+|UUID|hex32)`, `.*\.txt$`, `\w+@\w+\.com`, `(?i)hello`, `error|warning|fatal`,
 	`\d{1,3}\.\d{1,3}`, `(?m)^/.*\.php`, `.*error.*`, `^/api/.*\.json$`, `a(b|c)*d`, `[^,]+,`, `(\w+)\s(\w+)`, `x*`, `hello`, `\bfoo\b`, `.*\.(txt|log|md)`, `^/.*\.php`,
 	`(a|ab)(c|bcd)(d*)`, `[a-z]+connection[a-z]+`, `(?s)a.+b`, `\b\w+\b`, `é+`, `[^a]\b`, `(?:)`, `a|b|c|d|e|f|g|h|i|j|k|l|m|n|o|p|q|r|s|t|u|v|w|x|y|z|aa|bb|cc|dd|ee|ff|gg|hh|ii|jj|kk`,
-	`.`, `(?s).`, `\pL+`, `(x+x+)+y`, `[[:alpha:]]+\d`}
+	`.`, `(?s).`, `\pL+`, `(x+x+)+y`, `[[:alpha:]]+\d`,
+	// anchored prefix / suffix literals that can overlap in a short haystack
+	`^abc.*bcd$`, `^ab.*ab$`, `^hello.+lox$`, `^aa.*a$`}
 
 // wellFormed checks every result of every search API on (re, h) and returns a description of the first problem ("" = fine).
 func wellFormed(re *coregex.Regex, h []byte) string {
@@ -280,6 +282,36 @@ func c07Worker(seed uint64, thorough bool, part string) int {
 						}
 						return s
 					})
+				}
+			}
+		}
+		// excisions: a sampled match with every middle piece cut out (m[:i]+m[j:]) — the parts of a pattern then meet or overlap in
+		// the haystack (prefix and suffix literals sharing bytes, a repetition shortened below its minimum, a group left empty)
+		for _, p := range c07Templates {
+			re, err := coregex.Compile(p)
+			if err != nil {
+				continue
+			}
+			ast, _ := syntax.Parse(p, syntax.Perl)
+			for k := 0; k < 4; k++ {
+				budget := 40
+				m := sampleMatch(rng, ast, nil, &budget)
+				if len(m) > 14 {
+					m = m[:14]
+				}
+				for i := 0; i <= len(m); i++ {
+					for j := i + 1; j <= len(m); j++ {
+						data := append(append([]byte(nil), m[:i]...), m[j:]...)
+						h := g.place(data, (i+j)%2 == 0)
+						try("excision", []byte(p), h)
+						safe(fmt.Sprintf("%q on the excision %q of the sampled match %q", p, data, m), func() string {
+							s := wellFormed(re, h)
+							if s == "" && !bytes.Equal(h, data) {
+								s = "haystack modified"
+							}
+							return s
+						})
+					}
 				}
 			}
 		}
